@@ -422,6 +422,10 @@ struct Runner {
         } else if (k == "Proceed") {
             x = "<proceed xmlns='urn:ietf:params:xml:ns:xmpp-tls'/>";
             tlsAfter = true;
+        } else if (k == "ProceedThen") {
+            // <proceed/> and a plaintext features element in one segment, then the handshake
+            x = "<proceed xmlns='urn:ietf:params:xml:ns:xmpp-tls'/>" + features(s["f"].toObject());
+            tlsAfter = true;
         } else if (k == "TlsFailure") {
             x = "<failure xmlns='urn:ietf:params:xml:ns:xmpp-tls'/>";
         } else if (k == "Success") {
@@ -518,6 +522,14 @@ struct Runner {
                 qxvSpin([&] { return !clientSocketUp(); }, 300);
             }
             qxvDrain();
+            if (k == "ProceedThen" && !clientSocketUp() && !clientSocketIdle()) {
+                // the client gave up while the handshake it had started was still pending: its
+                // socket finishes closing once the peer hangs up too
+                peer.cut();
+                bool down = qxvSpin([&] { return clientSocketIdle(); });
+                qxvDrain();
+                hang = !down;
+            }
         } else {
             settle(rc0, true);
         }
